@@ -27,6 +27,10 @@ CHECKS = {
    text="Same engine and shapes as C01 restricted to the negation-normal conjunctive/else-if fragment: for every candidate row the solver decides that the number of times it is returned equals the number of satisfying assignments projecting onto it (z3 Sum of If), and that the(...) returns / raises NoSolutionFound / MultipleSolutionFound exactly according to that count, also for a count taken after the() stopped early.",
    note="Bounds as C01. Trusted: z3, symx proxies, the oracle.",
    technique=SYMX),
+ "C08": dict(category="model_checking", design="DESIGN.md 4 C08",
+   text="Rule trees are written through the public with-block API (refinement / alternative / next_rule, nesting depth <= 3, <= 6 branches, one- and two-variable bases); every branch has its own inferred type and its own symbolic threshold, attribute values are unbounded z3 integers. On every path of the real rule.py / conclusion_selector.py / engine code the solver decides, per written branch and per binding, that the number of instances of the branch's type equals what a reference ripple-down-rules reading (a z3 term) prescribes, and that each instance was built from the values of its binding.",
+   note="2 objects per domain (3 in thorough one-variable cases); sibling refinements and alternatives after a next_rule are outside (their semantics are not fixed by the property). The many pre-existing tree-surgery defects are listed per (tree, branch) in known_findings.json; all other (tree, branch) pairs are fully checked. Trusted: z3, symx proxies, the 40-line reference reading.",
+   technique=SYMX),
 }
 NA_REASON = "check not built yet (build in progress, see DESIGN.md section 9 for the build order)"
 NA = {}
